@@ -3,11 +3,11 @@
 Require Import PX.Base.Str PX.Gen.Lexer PX.Model.Scanner.
 Local Open Scope N_scope.
 
-Lemma pin_DATETIME : LEXER_DATETIME = [45;63;92;100;123;52;125;45;92;100;123;50;125;45;92;100;123;50;125;84;92;100;123;50;125;58;92;100;123;50;125;58;92;100;123;50;125;40;92;46;92;115;43;41;63;40;40;40;92;43;124;92;45;41;92;100;123;50;125;58;92;100;123;50;125;41;124;90;41;63]%N.
+Lemma pin_DATETIME : LEXER_DATETIME = [45;63;92;100;123;52;125;45;92;100;123;50;125;45;92;100;123;50;125;84;92;100;123;50;125;58;92;100;123;50;125;58;92;100;123;50;125;40;92;46;92;100;43;41;63;40;40;40;92;43;124;92;45;41;92;100;123;50;125;58;92;100;123;50;125;41;124;90;41;63]%N.
 Proof. reflexivity. Qed.
 Lemma pin_DATE : LEXER_DATE = [45;63;92;100;123;52;125;45;92;100;123;50;125;45;92;100;123;50;125]%N.
 Proof. reflexivity. Qed.
-Lemma pin_TIME : LEXER_TIME = [92;100;123;50;125;58;92;100;123;50;125;58;92;100;123;50;125;40;92;46;92;115;43;41;63;40;40;40;92;43;124;92;45;41;92;100;123;50;125;58;92;100;123;50;125;41;124;90;41;63]%N.
+Lemma pin_TIME : LEXER_TIME = [92;100;123;50;125;58;92;100;123;50;125;58;92;100;123;50;125;40;92;46;92;100;43;41;63;40;40;40;92;43;124;92;45;41;92;100;123;50;125;58;92;100;123;50;125;41;124;90;41;63]%N.
 Proof. reflexivity. Qed.
 Lemma pin_NUMBER : LEXER_NUMBER = [45;63;92;100;43;92;46;92;100;42;124;45;63;92;46;92;100;43;124;45;63;92;100;43]%N.
 Proof. reflexivity. Qed.
@@ -56,9 +56,9 @@ Proof. reflexivity. Qed.
 Lemma pin_rule_order : map fst RULES = LEXER_RULE_ORDER.
 Proof. reflexivity. Qed.
 Definition patterns_as_modelled : Prop :=
-  (LEXER_DATETIME = [45;63;92;100;123;52;125;45;92;100;123;50;125;45;92;100;123;50;125;84;92;100;123;50;125;58;92;100;123;50;125;58;92;100;123;50;125;40;92;46;92;115;43;41;63;40;40;40;92;43;124;92;45;41;92;100;123;50;125;58;92;100;123;50;125;41;124;90;41;63]%N) /\
+  (LEXER_DATETIME = [45;63;92;100;123;52;125;45;92;100;123;50;125;45;92;100;123;50;125;84;92;100;123;50;125;58;92;100;123;50;125;58;92;100;123;50;125;40;92;46;92;100;43;41;63;40;40;40;92;43;124;92;45;41;92;100;123;50;125;58;92;100;123;50;125;41;124;90;41;63]%N) /\
   (LEXER_DATE = [45;63;92;100;123;52;125;45;92;100;123;50;125;45;92;100;123;50;125]%N) /\
-  (LEXER_TIME = [92;100;123;50;125;58;92;100;123;50;125;58;92;100;123;50;125;40;92;46;92;115;43;41;63;40;40;40;92;43;124;92;45;41;92;100;123;50;125;58;92;100;123;50;125;41;124;90;41;63]%N) /\
+  (LEXER_TIME = [92;100;123;50;125;58;92;100;123;50;125;58;92;100;123;50;125;40;92;46;92;100;43;41;63;40;40;40;92;43;124;92;45;41;92;100;123;50;125;58;92;100;123;50;125;41;124;90;41;63]%N) /\
   (LEXER_NUMBER = [45;63;92;100;43;92;46;92;100;42;124;45;63;92;46;92;100;43;124;45;63;92;100;43]%N) /\
   (LEXER_OPS_MATH = [91;92;42;92;43;92;45;93;124;32;109;111;100;32;124;32;100;105;118;32]%N) /\
   (LEXER_OPS_COMP = [92;61;124;92;33;92;61;124;92;60;124;92;62;124;92;60;61;124;62;61]%N) /\
